@@ -20,8 +20,11 @@ package quic
 //   * unmodified token from another address, or older than its lifetime: never "validated";
 //   * mutated token (any age): never "validated"; if a connection is created it is created as
 //     if no token had been sent (no retry source connection ID, the client's own DCID);
-//   * same IP in another byte form, and age == lifetime exactly: the statement is silent,
-//     every behaviour is accepted (recorded as outcome classes only).
+//   * same IP in another byte form (4 bytes vs IPv4-mapped 16 bytes), and age == lifetime
+//     exactly: the statement is silent, every behaviour is accepted (recorded as outcome
+//     classes only).
+// The address set contains addresses in different encodings that share bytes (see
+// c14util.Addrs): every ordered pair (issued for, presented from) is presented.
 
 import (
 	"context"
@@ -402,13 +405,18 @@ func c14SrvCases(thorough bool) []c14SrvCase {
 				if thorough && (a == 0 || a == 5 || a == 10) {
 					lvl = c14util.Extended
 				}
+				if a >= c14util.NBase {
+					// the addresses that share bytes with others in another encoding: the token
+					// is presented unmodified from every address, at every age (no mutations)
+					lvl = c14util.AddrOnly
+				}
 				cs = append(cs, c14SrvCase{retry: false, addr: a, useRetry: useRetry, short: short, lvl: lvl})
 				for cid := range c14util.CIDPairs() {
 					if !thorough && cid != a%len(c14util.CIDPairs()) && cid != 0 {
 						continue
 					}
 					l := lvl
-					if cid > 0 {
+					if cid > 0 && l > c14util.Core {
 						l = c14util.Core
 					}
 					cs = append(cs, c14SrvCase{retry: true, addr: a, cid: cid, useRetry: useRetry, short: short, lvl: l})
@@ -433,13 +441,14 @@ func c14SrvPart(t *testing.T) explore.Part {
 		rep.Outcomes = outcomes.List()
 		rep.OutcomesN = int64(len(rep.Outcomes))
 		rep.States = rep.OutcomesN
-		rep.Rule = fmt.Sprintf("explicit case list: %d (token kind, connection-ID pair, issue address, server with/without mandatory Retry, default/short lifetimes) cases; per case the token is minted by the real generator at a harness-chosen virtual instant and, at each age in {0, lifetime-1s, lifetime, lifetime+1s}, presented to the real baseServer.handleInitialImpl unmodified from each of the %d addresses and - from the issue address - in every single-bit flip, truncation (front/back), one-byte extension (256 values, front/back)%s and re-sealed under 4 other keys; evaluations = handleInitialImpl calls",
-			len(cases), len(c14util.Addrs()), map[bool]string{true: ", for the reference addresses also every one-byte deletion / insertion / substitution", false: ""}[e.Thorough()])
+		rep.Rule = fmt.Sprintf("explicit case list: %d (token kind, connection-ID pair, issue address, server with/without mandatory Retry, default/short lifetimes) cases; per case the token is minted by the real generator at a harness-chosen virtual instant and, at each age in {0, lifetime-1s, lifetime, lifetime+1s}, presented to the real baseServer.handleInitialImpl unmodified from each of the %d addresses (every ordered pair issued-for x presented-from, including the 16-byte IPv6 addresses that carry the bytes of the IPv4 reference address at every position, NAT64 / 6to4 / ISATAP / IPv4-compatible forms and near misses of the IPv4-mapped prefix) and re-sealed under 4 other keys; for the first %d issue addresses also - from the issue address - in every single-bit flip, truncation (front/back), one-byte extension (256 values, front/back)%s; evaluations = handleInitialImpl calls",
+			len(cases), len(c14util.Addrs()), c14util.NBase, map[bool]string{true: ", for the reference addresses also every one-byte deletion / insertion / substitution", false: ""}[e.Thorough()])
 		rep.Bound = fmt.Sprintf("all %d cases x 4 ages x (all addresses + all mutations)", len(cases))
 		rep.Samples = []any{
 			"Retry token for a, presented from a at age lifetime-1s -> conn(validated=true, odcid/rscid as issued)",
 			"Retry token for a, presented from a at age lifetime+1s -> invalid-token",
 			"NEW_TOKEN token for a, bit 5 of byte 40 flipped, server requires Retry -> retry (token treated as absent)",
+			fmt.Sprintf("Retry token for %s, presented from %s at age 0 -> invalid-token", c14util.Addrs()[0].Name, c14util.Addrs()[c14util.NBase].Name),
 		}
 		return rep, nil
 	}
